@@ -177,6 +177,39 @@ Theorem C19_original_wait_connects_after_kill_le_2 :
 Proof. exact old_client_after_kill_le_2. Qed.
 Print Assumptions C19_original_wait_connects_after_kill_le_2.
 
+(* ---------------------------------------------------------------- Profile swap *)
+(* the settings update of the swap block of listen: after the swap the values in force are the
+   Profile's wherever the Profile sets them (sleep > 0, jitter 0..100 -- 0 INCLUDED --, a kill date,
+   work hours, an Empty rule clearing them), the old ones elsewhere *)
+Theorem C19_swap_takes_profile_values :
+  forall old p,
+  (0 < p_sleep p -> s_sleep (swap_settings old p) = p_sleep p) /\
+  (p_sleep p <= 0 -> s_sleep (swap_settings old p) = s_sleep old) /\
+  (0 <= p_jitter p <= 100 -> s_jitter (swap_settings old p) = p_jitter p) /\
+  (p_jitter p < 0 \/ 100 < p_jitter p -> s_jitter (swap_settings old p) = s_jitter old) /\
+  (forall k, p_kill p = Some k -> s_kill (swap_settings old p) = k) /\
+  (p_kill p = None -> s_kill (swap_settings old p) = s_kill old) /\
+  (forall w, p_work p = Some w -> empty w = false -> s_work (swap_settings old p) = Some w) /\
+  (forall w, p_work p = Some w -> empty w = true -> s_work (swap_settings old p) = None) /\
+  (p_work p = None -> s_work (swap_settings old p) = s_work old).
+Proof. exact swap_takes_profile_values. Qed.
+Print Assumptions C19_swap_takes_profile_values.
+
+(* a Profile with jitter 0 and sleep d > 0: whatever the client ran with before, every delay
+   wait() computes after the swap is exactly d, for all draws *)
+Theorem C19_swap_jitter0_delay_exact :
+  forall old p gate d sign,
+    p_jitter p = 0 -> 0 < p_sleep p -> delay_with (swap_settings old p) gate d sign = p_sleep p.
+Proof. exact swap_jitter0_delay_exact. Qed.
+Print Assumptions C19_swap_jitter0_delay_exact.
+
+Theorem C19_swap_jitter0_in_force_delay_exact :
+  forall old p gate d sign,
+    s_jitter (swap_settings old p) = 0 ->
+    delay_with (swap_settings old p) gate d sign = s_sleep (swap_settings old p).
+Proof. exact swap_jitter0_in_force_delay_exact. Qed.
+Print Assumptions C19_swap_jitter0_in_force_delay_exact.
+
 (* ---------------------------------------------------------------- non-vacuity *)
 (* Monday-Friday 9:00-17:00: "go" on Tuesday 10:00, "wait 1 h" on Tuesday 8:00, "wait until
    midnight" on a Sunday, "wait until 9:00 tomorrow" at 17:00:00.000000001 *)
@@ -204,3 +237,11 @@ Example C19_nonvacuous_kill :
     [(208800000000000, false); (208800060000000, false); (208800120000000, false); (208800180000000, true)]
   /\ count_after_kill sc_cfg (client impl_recheck sc_cfg sc_script sc_t0) = 1.
 Proof. vm_compute. split; reflexivity. Qed.
+
+(* jitter 100 / 40 ms client, Profile {sleep 40 ms, jitter 0}: the delay is 40 ms (it was 79 ms) *)
+Example C19_nonvacuous_swap :
+  let old := mkS 40000000 100 None None in
+  let p := mkP 40000000 0 None None in
+  delay_with old 0 39 0 = 79000000 /\ swap_settings old p = mkS 40000000 0 None None /\
+  delay_with (swap_settings old p) 0 39 0 = 40000000.
+Proof. vm_compute. repeat split; reflexivity. Qed.
